@@ -218,7 +218,9 @@ SPEC = {
                 "atomic logical clock, Close in a quarter of them) decided by the Lean checker and, independently, by a Go checker; "
                 "watchdog for hangs; scenario families: snapshot, flushkv/Close, read-only phase, torn values, batch Delete+Set, large store with "
                 "DeletePrefix/Clear of more than half (final-state oracle), Commit racing Close (failed-commit-wrote), views created while their parent's "
-                "lock is held (freshview); caller-owned buffers are overwritten after every call (aliasing); thorough tier under -race.",
+                "lock is held (freshview); caller-owned buffers are overwritten after every call (aliasing); a corpus of 18 hand-written histories with known verdicts (10 rejected) "
+                "decided by both checkers first; rejected histories are minimised (reads removed while still rejected) and the minimised history is the replay; "
+                "a parked debug access callback (cbpark); the quick tier runs two crash-probe plans in a -race build, the thorough tier is a -race build as a whole.",
         "note": "Data-race freedom: proved for the model's lock discipline (C05_well_locked), tied to the source statically by the lockset "
                 "obligations (sound analysis over regenerated token lists of every function; trusted: the syntactic extractor) and "
                 "dynamically by the race detector runs of the thorough tier. Fixed finding (b5d5462): behind flushkv a mutation racing Close took effect and still answered "
